@@ -95,6 +95,14 @@ fn tables(code: &mut Code, anchors: &[u32], rng: &mut Rng) {
         if rng.chance(1, 3) { lvtt.push(LocalVar { start: s, end: e, name: JS::new(&format!("v{k}")), desc_or_sig: JS::new("TT;"), index }); }
     }
     code.lvt = Some(lvt); if !lvtt.is_empty() { code.lvtt = Some(lvtt); }
+    // type annotations with code positions (offset targets and local-variable ranges)
+    let ann = |k: usize| Annotation { type_: JS::new(&format!("Lscn/A{k};")), pairs: vec![(JS::new("v"), ElementValue::IntLike(b'I', k as i32))] };
+    for k in 0..rng.below(4) {
+        let p = *rng.pick(&a); let later: Vec<u32> = a.iter().copied().filter(|q| *q >= p).chain(std::iter::once(n)).collect(); let e = *rng.pick(&later);
+        let target = match rng.below(3) { 0 => Target::Offset(0x43 + rng.below(4) as u8, p), 1 => Target::TypeArgument(0x47 + rng.below(5) as u8, p, rng.below(3) as u8), _ => Target::LocalVar(0x40 + rng.below(2) as u8, vec![(p, e, 7), (a[0], n, 300)]) };
+        let ta = TypeAnnotation { target, path: if rng.bool() { vec![] } else { vec![(3, 1), (0, 0)] }, annotation: ann(k) };
+        if rng.bool() { code.vis_type_annotations.push(ta); } else { code.invis_type_annotations.push(ta); }
+    }
 }
 
 /// class around the big method: `pressure` fields with distinct names (>= 256 pool entries used before the method)
